@@ -62,6 +62,9 @@ H(name="c19_hkdf_plumbing", crate="kestrel-crypto", props=["C19", "C06"], est_s=
 H(name="c19_hmac_plumbing", crate="kestrel-crypto", mod="verif_wrap_x", ext=True, props=["C19", "C06"], est_s=15, replay="model",
   desc="hmac_sha256(key, data) hands the whole key (0..140 bytes: also keys longer than the 64-byte block) and the whole data to orion HMAC-SHA256 and returns its tag unchanged",
   funcs=["hmac_sha256"], bounds="key 0..140 bytes, data 0..16 bytes (pointer/length identity: contents unconstrained)", env=["orion hmac::sha256::SecretKey::from_slice recorder (opaque key object)", "orion HmacSha256::hmac recorder with unconstrained 32-byte result"], outside="orion == RFC 2104 / FIPS 180-4")
+H(name="c19_derive_public_plumbing", crate="kestrel-crypto", mod="verif_wrap_x", ext=True, props=["C19", "C05"], est_s=15, replay="model",
+  desc="x25519_derive_public(sk) hands exactly the 32 private-key bytes to orion's base-point multiplication and returns its result unchanged; a refusal becomes DhError",
+  funcs=["x25519_derive_public"], bounds="all 32-byte private keys", env=["orion x25519 PrivateKey::from_slice recorder (opaque key object)", "orion PublicKey::try_from(&PrivateKey) recorder with unconstrained result (Ok(any 32 bytes) | Err)"], outside="curve arithmetic (orion == RFC 7748)")
 H(name="c19_sha256_plumbing", crate="kestrel-crypto", mod="verif_wrap_x", ext=True, props=["C19"], est_s=15, replay="model",
   desc="sha256(data) = orion SHA-256 digest of the whole input, returned unchanged",
   funcs=["sha256"], bounds="data 0..140 bytes", env=["orion Sha256::digest recorder with unconstrained 32-byte result"], outside="orion == FIPS 180-4")
